@@ -8,6 +8,7 @@ from scen import C, e, n, op, scn, src, sub
 
 PID = "C10"
 ORACLE = "c10"
+TIE_ORACLES = ["c10k"]     # implementation = SubjK (the automaton the refinement theorems are about)
 RULE = ("call histories over {subscribe_i, unsubscribe_i, next(v), error, complete} with up to 3 observers and 3 values on each of the four "
         "subject kinds, observers attached directly and through an identity operator; quick: all histories of length <= 4 over a reduced "
         "alphabet plus random ones up to length 9, thorough: exhaustive to length 6 plus 40k random; non-trivial = the oracle applies and "
